@@ -6,8 +6,8 @@
    One application thread; the reader runs whenever the application sleeps
    (one scripted batch of inbound frames per sleep).  Behaviour follows the
    code after the fix: commits recorded in KNOWN_FINDINGS.txt; the open
-   findings (late reply after an aborted call, return content vs basic.get,
-   queued error masking a close) are modelled as the code behaves.
+   findings (late reply after an aborted call, return content vs basic.get)
+   are modelled as the code behaves.
    Definitions only. *)
 From AV Require Import Lib.Base.
 Local Open Scope Z_scope.
@@ -285,7 +285,9 @@ Definition chan_check (s : sys) (c : nat) (v : chan) : sys * chan * res unit :=
   | (s', Ok _) =>
     match c_errs v with
     | e :: rest =>
-      let v' := if st_eqb (c_state v) OPEN then with_errs v rest else v in
+      (* a returned message is reported once whatever the state; on a channel that
+         is no longer open the close reason stays for every later call *)
+      let v' := if st_eqb (c_state v) OPEN || ekind_eqb (e_kind e) EMsg then with_errs v rest else v in
       (upd s' c v', v', Raise e)
     | [] =>
       if st_eqb (c_state v) CLOSED
